@@ -94,7 +94,7 @@ def check_required(
         considered = 0
         bad: Path | None = None
         for p in succ:
-            facts = path_facts(p)
+            facts = path_facts(p, versioned="entry+current")
             if req.loop_over is not None:
                 loops = [f for f in facts if f.kind == "LOOP" and f.args[0] in _fmt((req.loop_over,), fi)]
                 if loops and not loops[-1].polarity:
